@@ -7,7 +7,7 @@ from .. import core, universe as U
 from ..core import Undecided
 
 
-def controller_cfg(slots, tmpls, maxops, maxbatches, invs, spec="Spec", secvals=("absent", "v1", "bad"), epsids=("e1", "e2", "e0"), faults=()):
+def controller_cfg(slots, tmpls, maxops, maxbatches, invs, spec="Spec", secvals=("absent", "v1", "bad"), epsids=("e1", "e2", "e0"), faults=(), extra=""):
     return """SPECIFICATION %s
 CONSTANTS
     Slots = {%s}
@@ -19,11 +19,12 @@ CONSTANTS
     MaxOps = %d
     MaxBatches = %d
     FaultPoints = {%s}
+%s
 INVARIANTS
 %s
 CHECK_DEADLOCK FALSE
 """ % (spec, ", ".join(str(s) for s in slots), ", ".join('"%s"' % t for t in tmpls), ", ".join('"%s"' % e for e in epsids),
-       ", ".join('"%s"' % v for v in secvals), maxops, maxbatches, ", ".join('"%s"' % f for f in faults),
+       ", ".join('"%s"' % v for v in secvals), maxops, maxbatches, ", ".join('"%s"' % f for f in faults), extra,
        "\n".join("    " + i for i in invs))
 
 
@@ -37,7 +38,7 @@ def design(ctx):
     check_universe()
     q = ctx.quick()
     core.tlc_design(ctx, "design-controller", "Controller", None,
-                    cfgtext=controller_cfg([1, 2], ["t1", "t3", "t5", "t7", "t10", "t11"] if q else list(U.ING)[:9], 2, 2, ["OracleOK"]),
+                    cfgtext=controller_cfg([1, 2], ["t1", "t3", "t5", "t7", "t10", "t11"] if q else U.CORE_NOWILD[:9], 2, 2, ["OracleOK"]),
                     workers=core.NCPU, timeout=2400)
 
 
@@ -60,7 +61,7 @@ def with_cluster(hid, beh, **kw):
 
 def tlc_histories(ctx, n, maxops=3, maxbatches=3, tmpls=None, tag="sim", opts=None, secvals=("absent", "v1", "v2", "bad"), faults=()):
     """Histories proposed by TLC (-simulate over Controller!Next)."""
-    tmpls = tmpls or list(U.ING)
+    tmpls = tmpls or U.CORE_NOWILD
     r = core.tlc(ctx, "gen-" + tag, "Controller", None,
                  cfgtext=controller_cfg([1, 2, 3], tmpls, maxops, maxbatches, ["EmitBehaviour"], secvals=secvals,
                                         epsids=("e0", "e1", "e2", "e4"), faults=faults),
